@@ -54,7 +54,8 @@ def panic_sites(crate, b):
                     out.append((sub, bi, "panic", cs))
                 elif n in ("index", "index_mut") and cs.callee.trait and "Index" in cs.callee.trait:
                     out.append((sub, bi, "index", cs))
-                elif n in ("split_at", "remove", "swap_remove", "insert") and "Vec" in (cs.callee.impl_self or "") and n != "insert":
+                elif n in ("split_at", "split_at_mut", "remove", "swap_remove", "split_off", "drain", "truncate_front", "char_at", "slice_unchecked") and n != "insert" \
+                        and any(k in (cs.callee.impl_self or cs.callee.target or "") for k in ("Vec", "str", "[T]", "String", "slice")):
                     out.append((sub, bi, n, cs))
     return out
 
